@@ -151,6 +151,10 @@ type Layout struct {
 	FontNameRot, FontsDirect, InlineImages bool
 	// TmScale: "/F 1 Tf  s 0 0 s x y Tm" instead of "/F s Tf  1 0 0 1 x y Tm"
 	TmScale bool
+	// GhostFont: every /Font resource dictionary carries one more entry, /F0 (it
+	// sorts before the real names), for a font no page ever selects and whose
+	// object the file does not have (a dangling reference reads as null).
+	GhostFont bool
 	// Omit: entity keys (e.g. "font:3", "font:3:tounicode") that get an object
 	// number but are not written: references to them dangle (C02 / C03 only)
 	Omit []string
@@ -623,6 +627,9 @@ func (b *builder) materialize(d *Doc) (map[string]any, []string) {
 	for _, f := range d.Fonts {
 		b.fontObjects(f, objs)
 	}
+	if b.lay.GhostFont {
+		objs["font:ghost"] = Dict{{"Type", Name("Font")}, {"Subtype", Name("Type1")}, {"BaseFont", Name("Symbol")}}
+	}
 	nFonts := len(d.Fonts)
 	// rotOf: how the Resources dictionary of an owner (node id, or -1-id for a
 	// form's own resources) names the fonts: name F(k+1) is font (k+rot) mod n.
@@ -646,6 +653,10 @@ func (b *builder) materialize(d *Doc) (map[string]any, []string) {
 		}
 		if rot != 0 {
 			b.feat["res.font-names-rotated"] = true
+		}
+		if b.lay.GhostFont {
+			fd = append(Dict{{"F0", Ref{"font:ghost"}}}, fd...)
+			b.feat["res.font-entry-dangling-unused"] = true
 		}
 		return fd
 	}
@@ -882,6 +893,9 @@ func canonInto(b *strings.Builder, v any) {
 // of later (each a complete logical document that replaces the previous one;
 // only changed entities are written, removed ones are freed).
 func Build(seed int64, lay Layout, docs []*Doc) *Built {
+	if lay.GhostFont {
+		lay.Omit = append(append([]string{}, lay.Omit...), "font:ghost")
+	}
 	b := &builder{lay: lay, seed: seed, r: rand.New(rand.NewSource(seed)), nums: map[string]int{}, gens: map[string]int{}, used: map[int]bool{}, written: map[string]string{}, feat: map[string]bool{}}
 	f := NewFile([]string{"1.4", "1.5", "1.7"}[b.r.Intn(3)], lay.EOL, lay.Tight, rand.New(rand.NewSource(seed^0x5bd1e995)))
 	live := map[string]bool{}
